@@ -70,7 +70,9 @@ static bool audit_phase(CheckState& st) {
     std::string scratch = sh("mktemp -d /tmp/jv-audit.XXXXXX"); while (!scratch.empty() && scratch.back() == '\n') scratch.pop_back();
     if (scratch.empty()) { st.violated = true; st.v = {"HARNESS", "audit", "mktemp failed", 0}; return false; }
     struct Cfg { const char* name; const char* cxx; const char* extra; } cfgs[] = {
-        {"clang-asm", "clang++", ""}, {"clang-portable64", "clang++", "-DDISABLE_ASM"}, {"clang-portable32", "clang++", "-DDISABLE_ASM -U__SIZEOF_INT128__"}, {"gcc-asm", "g++", ""}, {"gcc-portable64", "g++", "-DDISABLE_ASM"}};
+        {"clang-asm", "clang++", ""}, {"clang-portable64", "clang++", "-DDISABLE_ASM"}, {"clang-portable32", "clang++", "-DDISABLE_ASM -U__SIZEOF_INT128__"}, {"gcc-asm", "g++", ""}, {"gcc-portable64", "g++", "-DDISABLE_ASM"},
+        {"clang-embedded-flags", "clang++", "-DDISABLE_ASM -U__SIZEOF_INT128__ -Os -fno-builtin -fshort-enums -funsigned-char -fno-threadsafe-statics"}, {"gcc-embedded-flags", "g++", "-DDISABLE_ASM -U__SIZEOF_INT128__ -Os -fno-builtin -fshort-enums -funsigned-char -fno-threadsafe-statics"},
+        {"clang-debug", "clang++", "-DDISABLE_ASM -O0"}};   // the flag set of the Makefile's Cortex-M0+ section (minus the target selection), and an unoptimised build
     static const std::regex allowed_undef("^(memcpy|memmove|memset|memcmp|bcmp|__(u)?(div|mod|divmod|mul)[dt]i[34]|__(ashl|ashr|lshr)[dt]i3|_GLOBAL_OFFSET_TABLE_|__stack_chk_fail)$");
     static const std::regex allowed_writable("^(embedded_pairing::core::runtime_(fpbase_384_montgomery_reduce|bigint_768_multiply|bigint_768_square)|embedded_pairing::core::cpu_supports_bmi2_adx|embedded_pairing::core::Fp<.*>::one|embedded_pairing::(wkdibe|lqibe)::group_order|embedded_pairing::bls12_381::g1_endomorphism_lambda|embedded_pairing_bls12_381_(group_order|g1_zero|g1affine_zero|g1affine_generator|g2_zero|g2affine_zero|g2affine_generator|gt_zero|gt_generator))$");
     auto report = Json::arr(); bool ok = true;
